@@ -483,10 +483,10 @@ type blockRes struct {
 	txErr     []string
 	txBefore  []dkgObs
 	txLeft    []dkgObs // DKG lists in the state the call left behind (kept only when accepted)
-	idKnown   []bool // share: the MPKs node has an entry for the "id" of the input (what an unrepaired Validate looked up)
-	senderMPK []bool // share: the MPKs node has an entry for the sender (what Validate looks up)
-	ownMPK    []bool // share: the sender's own MPK of this DKG is recorded under its id
-	moveRes   string // FOk FErr FNodeNotFound (recorded on a copy of the state)
+	idKnown   []bool   // share: the MPKs node has an entry for the "id" of the input (what an unrepaired Validate looked up)
+	senderMPK []bool   // share: the MPKs node has an entry for the sender (what Validate looks up)
+	ownMPK    []bool   // share: the sender's own MPK of this DKG is recorded under its id
+	moveRes   string   // FOk FErr FNodeNotFound (recorded on a copy of the state)
 	funcRes   string
 	fresh     dkgObs
 	due       bool
